@@ -113,7 +113,8 @@ def main() -> int:
         tb = traceback.format_exc()
         if "/pypose/" in tb:
             ctx.disagree("implementation-crash", {"exception": repr(e)}, tb[-1500:])
-        elif "non-finite on the wire" in tb:
+        elif any(m in tb for m in ("non-finite on the wire", "cannot convert NaN to integer ratio", "cannot convert Infinity to integer ratio",
+                                   "cannot convert float NaN to integer", "cannot convert float infinity to integer")):
             # a NaN/inf computed by the implementation was about to be handed to the model: the correspondence
             # no longer checks (the harnesses send finite values only on a tree where the property holds)
             ctx.disagree("non-finite-implementation-value", {"exception": repr(e)}, tb[-1500:])
